@@ -103,6 +103,24 @@ func RunCheck(cfg CheckCfg, prop func(*rapid.T)) *Obs {
 	return obs
 }
 
+// RunCheckGo is RunCheck on a goroutine of its own; Goexited tells that this goroutine was ended by
+// runtime.Goexit before rapid.Check returned (user code called FailNow / SkipNow of a real *testing.T).
+func RunCheckGo(cfg CheckCfg, prop func(*rapid.T)) (obs *Obs, goexited bool) {
+	done := make(chan struct{})
+	returned := false
+	go func() {
+		defer close(done)
+		obs = RunCheck(cfg, prop)
+		returned = true
+	}()
+	<-done
+	if !returned {
+		resetFlags()
+		return &Obs{}, true
+	}
+	return obs, false
+}
+
 // ---- scratch directories -------------------------------------------------------------------------------
 
 var (
